@@ -832,8 +832,18 @@ func init() {
 			nwant := B - 1
 			if B == 0 {
 				nwant = nvarargs
+				// +inline-call reg.CopyRange RA cf.Base+nparams+1 cf.LocalBase nwant
+				return 0
 			}
-			// +inline-call reg.CopyRange RA cf.Base+nparams+1 cf.LocalBase nwant
+			// a fixed number of values may go straight into the register of a local that has live locals
+			// above it ("a = (...)"): the registers above stay as they are
+			for i := 0; i < nwant; i++ {
+				if i < nvarargs {
+					reg.Set(RA+i, reg.Get(cf.Base+nparams+1+i))
+				} else {
+					reg.Set(RA+i, LNil)
+				}
+			}
 			return 0
 		},
 		func(L *LState, inst uint32, baseframe *callFrame) int { //OP_NOP
